@@ -269,6 +269,7 @@ class Layer:
         self.watch = watch          # the run's own output file: looked at before every intercepted operation
         self.mid = None             # first operation before which the output file differed from its state at the start
         self._w0 = None
+        self._s0 = None
 
     def _peek(self, p):
         try:
@@ -277,10 +278,22 @@ class Layer:
         except OSError:
             return None
 
+    @staticmethod
+    def _sig(p):
+        try:
+            st = os.stat(p)
+            return (st.st_ino, st.st_size, st.st_mtime_ns)
+        except OSError:
+            return None
+
     def probe(self, what):
         """the state between two operations is what a generator that stops there (killed, any exception) leaves"""
         if self.watch is None or self.mid is not None:
             return
+        sig = self._sig(self.watch)
+        if sig == self._s0:
+            return                   # same inode, size and modification time: not written to since the start
+        self._s0 = sig
         now = self._peek(self.watch)
         if now != self._w0:
             self.mid = {"before": what, "content": None if now is None else now.decode("utf-8", "replace")}
@@ -356,6 +369,7 @@ class Layer:
         self._open, self._replace, self._rename = builtins.open, os.replace, os.rename
         self._remove, self._unlink, self._ioopen = os.remove, os.unlink, io.open
         if self.watch is not None:
+            self._s0 = self._sig(self.watch)
             self._w0 = self._peek(self.watch)
         builtins.open = self.open
         io.open = self.open
@@ -543,7 +557,7 @@ class Prop(Check):
     LEAN_MODULE = "TextxVerif.Props.C31"
     THEOREMS = ["GenFile.C31_atomic", "GenFile.C31_complete", "GenFile.C31_history", "GenFile.C31_no_skip",
                 "GenFile.C31_skip_iff", "GenFile.C31_pinned_false", "GenFile.C31_pinned_overwrite_false",
-                "GenFile.C31_ops_summary", "GenFile.C31_prefix_atomic", "GenFile.C31_history_exact",
+                "GenFile.C31_ops_summary", "GenFile.C31_prefix_atomic", "GenFile.C31_mid_flag", "GenFile.C31_history_exact",
                 "GenFile.C31_lastDone_spec", "GenFile.C31_failed_runs_keep", "GenFile.C31_last_writer",
                 "GenFile.C31_history_from", "GenFile.C31_no_skip_from"]
     DRIVER = "Drivers/GenFile.lean"
@@ -570,7 +584,7 @@ class Prop(Check):
                 "(GenFile.traceOn) on the same history; operation level (GenFile.program/opsTrace, proved to add up to "
                 "exportNew): the output file is looked at before every intercepted open / write / flush / close / "
                 "replace / remove of a run and must be as at the start of the run until the export has completed "
-                "(model: `same` flags of the states after each operation); the bodies of metamodel_export_tofile / model_export_to_file are "
+                "(model: no operation before the last has an effect outside the temporary sibling, C31_mid_flag); the bodies of metamodel_export_tofile / model_export_to_file are "
                 "not modelled statement by statement: that each of their write calls lets a failure propagate is "
                 "observed on the implementation (a swallowed failure is an outcome mismatch and an oracle failure); "
                 "not exhibited: OS-level durability (power loss, non-atomic rename), failures of os.remove, a stale "
@@ -770,11 +784,10 @@ class Prop(Check):
             # operation level: is the output file touched before the last operation of the export
             info = out["steps"][k].get("ops")
             if info is not None:
-                same = info["same"]
-                m_mid = not all(same[:-1]) or (mo == "failed" and not all(same))
+                m_mid = not info["midSame"] or (mo == "failed" and not info["lastSame"])
                 if m_mid != self.mid_bad(st):
                     return (f"run {k}: output file modified while the export was under way: implementation "
-                            f"{st.get('mid')}, model (operations {info['prog']}) says {m_mid}")
+                            f"{st.get('mid')}, model ({info['n']} operations, the last one {info['last']}) says {m_mid}")
         return None
 
     @staticmethod
